@@ -289,3 +289,40 @@ def algebra_stage(prop, configs, negatives=(), workers=8, timeout=3000):
     st.notes["configs"] = [list(c) for c in configs]
     st.wall = time.time() - t0
     return st
+
+
+def simple_mc_stage(prop, module, cfg_text, negatives=(), workers=4, name=None, timeout=1200, java_opts=None):
+    """TLC model-checks spec/<module>.tla with cfg_text; each negative (label, cfg_text, invariant) must be violated."""
+    st = StageResult("mc:" + (name or module))
+    t0 = time.time()
+    wd = vlib.workdir(f"{prop}_mc_{module}")
+    r = vlib.run_tlc(module, cfg_text, wd, workers=workers, timeout=timeout, java_opts=java_opts)
+    if not r["ok"]:
+        raise vlib.ToolError(f"{module}: specification-level failure {r['violated']}\n" + r["out"][-2500:])
+    st.states += r["distinct"]
+    st.transitions += r["generated"]
+    st.samples.append({"model_checked": module, "distinct_states": r["distinct"], "config": cfg_text.splitlines()[:3]})
+    for (label, ncfg, inv) in negatives:
+        wdn = vlib.workdir(f"{prop}_mcneg_{module}_{label}")
+        rn = vlib.run_tlc(module, ncfg, wdn, workers=workers, timeout=timeout, java_opts=java_opts)
+        st.negatives.append({"name": label, "expected": inv, "violated": rn["violated"]})
+        if inv not in rn["violated"]:
+            raise vlib.ToolError(f"{module}: seeded specification bug {label} was not caught by TLC ({inv} vacuous?)\n" + rn["out"][-1500:])
+    st.wall = time.time() - t0
+    return st
+
+
+def transcript_cfg(rekey=True, rebuild=True, omit="none", k=2, t=2, m=2):
+    return (f'CONSTANTS Rekey = {"TRUE" if rekey else "FALSE"} Rebuild = {"TRUE" if rebuild else "FALSE"} Omit = "{omit}" '
+            f"KRounds = {k} TDeg = {t} MAgg = {m}\nSPECIFICATION Spec\nINVARIANTS Binding Hedged Fresh SeesAll WeightBound\nCHECK_DEADLOCK FALSE\n")
+
+
+def transcript_stage(prop, tier, omits=("H", "G", "N", "T", "M", "Ci", "vi - minimum_value"), extra_negs=()):
+    negs = [("omit_" + o.replace(" ", "_"), transcript_cfg(omit=o), "Binding") for o in omits] + list(extra_negs)
+    k, t, m = (2, 2, 2) if tier == "quick" else (3, 3, 2)
+    return simple_mc_stage(prop, "MC_Transcript", transcript_cfg(k=k, t=t, m=m), negs)
+
+
+def weights_stage(prop):
+    cfg = lambda pol: f'CONSTANTS Policy = "{pol}"\nSPECIFICATION Spec\nINVARIANT NoCancel\nCHECK_DEADLOCK FALSE\n'
+    return simple_mc_stage(prop, "MC_Weights", cfg("bound"), [("weights_blind_to_response", cfg("nod1"), "NoCancel"), ("constant_weights", cfg("const"), "NoCancel")])
